@@ -69,7 +69,7 @@ func (e *Exec) enterLoop(li *loopInfo, phiVals map[ssa.Value]Val, st *State) {
 			if strings.HasPrefix(n, "G$") {
 				continue
 			}
-			srt, ok := allSorts[n]
+			srt, ok := allSorts.get(n)
 			if !ok {
 				panic("loop havoc of unregistered component " + n)
 			}
